@@ -1,6 +1,7 @@
 package props
 
 import (
+	"bytes"
 	"encoding/json"
 	"fmt"
 	"sort"
@@ -48,7 +49,20 @@ func c11Run(c *val.Case, removedLib, removedInst []string, sameDC bool, more ...
 	for _, n := range removedLib {
 		prep.Lib.RemoveRuleEntry(n, obs.KBName, obs.KBVersion)
 	}
-	kb, err := obs.Instance(prep.Lib)
+	useLib := prep.Lib
+	if c.ViaGRB && len(removedLib) == 0 {
+		// the knowledge base went through store + load first
+		var buf bytes.Buffer
+		if serr := storeKB(prep.Lib, &buf); serr != nil {
+			return []string{fmt.Sprintf("StoreKnowledgeBaseToWriter failed: %v", serr)}, nil, nil
+		}
+		l2 := ast.NewKnowledgeLibrary()
+		if _, lerr, pan := loadKB(buf.Bytes(), l2, true); lerr != nil || pan != nil {
+			return []string{fmt.Sprintf("loading the stored knowledge base failed: %v %v", lerr, pan)}, nil, nil
+		}
+		useLib = l2
+	}
+	kb, err := obs.Instance(useLib)
 	if err != nil {
 		return []string{fmt.Sprintf("NewKnowledgeBaseInstance failed after removing %v from the library: %v", removedLib, err)}, nil, nil
 	}
@@ -189,6 +203,10 @@ func c11RunOnCtx(c *val.Case, prep *val.Prepared, kb *ast.KnowledgeBase, removed
 	} else if ferr != nil {
 		v = append(v, fmt.Sprintf("an error was returned although ReturnErrOnFailedRuleEvaluation is not set: %v", ferr))
 	}
+	isRule := map[string]bool{}
+	for _, r := range c.Rules {
+		isRule[r.Name] = true
+	}
 	if ferr == nil {
 		got := map[string]int{}
 		for _, n := range names {
@@ -198,7 +216,7 @@ func c11RunOnCtx(c *val.Case, prep *val.Prepared, kb *ast.KnowledgeBase, removed
 			if k > 1 {
 				v = append(v, fmt.Sprintf("rule %s returned %d times", n, k))
 			}
-			if removed[n] || strings.HasPrefix(n, "Deleted_") {
+			if removed[n] || (strings.HasPrefix(n, "Deleted_") && !isRule[n]) {
 				v = append(v, fmt.Sprintf("removed rule %s returned", n))
 			} else if !want[n] {
 				v = append(v, fmt.Sprintf("rule %s returned although its condition is not true on the facts (failing: %v)", n, failing[n]))
@@ -258,7 +276,7 @@ func TestC11(t *testing.T) {
 	rc.Forget = false
 	rc.MinRules, rc.MaxRules, rc.ExprDepth, rc.MaxActions = 1, 8, 2, 2
 	rc.Marks, rc.Probes = true, true
-	cfg := rsGenCfg{Rules: rc, Vary: true}
+	cfg := rsGenCfg{Rules: rc, Vary: true, GRB: true}
 	check(t, 0, budget(12000, 120000), func(rt *rapid.T) {
 		c, rs := genRSCase(rt, cfg)
 		labels := featLabels(rs)
